@@ -319,6 +319,12 @@ def small_graphs(ctx):
                     if (bits + sum(order[:1])) % 3 == 0 or not ctx.quick:
                         for build in ("api", "api_objects"):
                             yield {"n": n, "adj": adj, "kinds": kinds, "order": list(order), "lib": "testlib", "pick": bits + len(kinds[0]), "build": build}
+            # every reference mentioned twice by its command (once as written, once more in its list parameter)
+            if bits % 2 == 0 or not ctx.quick:
+                for kinds in kind_assignments(adj, full=False)[:2]:
+                    for order in (list(range(n)), list(range(n))[::-1]):
+                        yield {"n": n, "adj": [a + a for a in adj], "kinds": [k + ["l"] * len(k) for k in kinds], "order": order,
+                               "lib": "testlib", "pick": bits, "build": ["source", "api", "api_objects"][bits % 3]}
             if n <= 2 or bits % 7 == 0:
                 for outs in range(1 << n):
                     for poff in range(n + 1):
@@ -344,7 +350,7 @@ def larger_graphs(draw):
     style = draw(st.sampled_from(["random", "cycle_with_tails", "two_components", "self_loop", "acyclic"]))
     if style == "random":
         for i in range(n):
-            adj[i] = draw(st.lists(st.integers(0, n - 1), max_size=3, unique=True))
+            adj[i] = draw(st.lists(st.integers(0, n - 1), max_size=3, unique=draw(st.booleans())))
     elif style == "acyclic":
         for i in range(n):
             adj[i] = draw(st.lists(st.integers(0, i - 1), max_size=3, unique=True)) if i else []
